@@ -160,6 +160,37 @@ CHECKS = {
         "classify (e.g. an empty host NAME as in 'host=:80') accept 400 or the reference value and are counted as unclassified.",
         "DESIGN.md 4 C16",
     ),
+    "C04": (
+        "sim",
+        "exploration",
+        "runtime monitoring under a controlled scheduler: the real threaded server (I/O loop + workers) runs in a "
+        "deterministic simulated world (locks, conditions, select/poll, sockets, self-pipe; pre-emption at every lock "
+        "operation, socket call and source line via sys.monitoring); offline checker over the recorded history with "
+        "self-identifying payloads",
+        "Pipelines on 1-3 connections with payload sizes around the buffer thresholds, partial sends, lookahead 0-2 and "
+        "1-3 workers are run under seeded random-walk and PCT schedules and under the COMPLETE single-pre-emption "
+        "neighbourhood of pilot schedules of directed scenarios. Per connection: executions pairwise non-overlapping, in "
+        "arrival order, each exactly once up to the closing request; the client's byte stream parses into exactly those "
+        "responses with every 8-byte payload block in place (duplication, loss, interleaving visible). Evidence counts "
+        "distinct schedules and the interleavings of interest actually reached.",
+        "Trusts the Sim's models (DESIGN.md 5); coverage of schedules is <=1 pre-emption complete per enumerated "
+        "scenario, sampled beyond.",
+        "DESIGN.md 4 C04, 2.2",
+    ),
+    "C05": (
+        "sim",
+        "exploration",
+        "runtime monitoring under a controlled scheduler with the poll timeout removed: quiescence (or a spinning "
+        "fixpoint) of the simulated world is observable and checked against client-side delivery",
+        "Burst, ping-pong and streaming (application waits for its own output to be delivered) clients that always read, "
+        "response sizes swept across SO_SNDBUF, send_bytes and watermark settings, both poll implementations. A run ends "
+        "only when no thread can run and no timer is pending; then every client must have all expected responses or a "
+        "closed connection. Workhorse: complete single-pre-emption enumeration (a lost wake-up needs the I/O thread "
+        "parked in poll before the worker's last state change). Counts runs in which the I/O thread was parked while a "
+        "worker produced output / finished / decided to close.",
+        "Liveness is restated as 'quiescence with infinite poll timeout implies delivery'; trusts the Sim's readiness model.",
+        "DESIGN.md 4 C05",
+    ),
 }
 
 PENDING = {}
